@@ -455,6 +455,72 @@ def check_dispatcher(P, ctx):
     ctx.floor(rule, 11)
 
 
+def check_typed_kv(P, ctx):
+    """Table / Tree: a key or value supplied by the caller is stored (assign / byte copy) only after it went
+    through cast(x, container's key/value type) — a wrong-typed key or value must raise, not be stored"""
+    rule = 'C12.typed-key-value'
+    for T in ('Table', 'Tree'):
+        entry = P.slot(T, 'Get', 'set')
+        seen = set()
+        work = [(entry, {1: 'ktype', 2: 'vtype'})]
+        bad = []
+        nsites = 0
+        while work:
+            fname, raw = work.pop()
+            if (fname, tuple(sorted(raw.items()))) in seen:
+                continue
+            seen.add((fname, tuple(sorted(raw.items()))))
+            fn = P.fn(fname)
+            g = P.cfg(fn)
+            ctx.fn(fn)
+            N = util.Norm(P, fn, inline=False)
+            casts = {}
+            for n in g.live():
+                e = ir.top_nocast(n['expr']) if n['expr'] is not None else None
+                if e is None or e[0] != 'assign':
+                    continue
+                l, r = ir.top_nocast(e[2]), ir.top_nocast(e[3])
+                if l[0] == 'param' and l[2] in raw and r[0] == 'call' and ir.callee_name(r) == 'cast' and ir.top_nocast(r[2][0]) == l:
+                    t = N.canon(r[2][1])
+                    if t == ('arrow', ('param', 0), raw[l[2]]):
+                        casts.setdefault(l[2], []).append(n)
+            for n in g.live():
+                if n['expr'] is None:
+                    continue
+                for c in ir.calls(n['expr']):
+                    nm = ir.callee_name(c)
+                    for j, a in enumerate(c[2]):
+                        a = ir.top_nocast(a)
+                        if a[0] != 'param' or a[2] not in raw:
+                            continue
+                        validated = a[2] in casts and g.must_pass(n['id'], [x['id'] for x in casts[a[2]]])
+                        if nm == 'cast' and j == 0:
+                            continue
+                        if nm in ('assign', 'memcpy', 'memmove') and j == 1 or (nm in ('memcpy', 'memmove') and j == 1):
+                            nsites += 1
+                            if not validated:
+                                bad.append((fn, n, '%s stores the caller\'s %s without the type check' % (nm, 'key' if raw[a[2]] == 'ktype' else 'value')))
+                        elif nm in P.functions and P.functions[nm]['unit'] == fn['unit'] and not validated:
+                            if nm in ('Table_Mem', 'Table_Get', 'Tree_Mem', 'Tree_Get', 'Table_Rem', 'Tree_Rem'):
+                                continue    # lookups validate the key themselves (C12.validate-before-mutate) and store nothing
+                            work.append((nm, {j: raw[a[2]]}))
+                    # pointer arithmetic on a raw parameter (byte-wise move) counts as a store source too
+                    if nm in ('memcpy', 'memmove') and len(c[2]) > 1:
+                        src = c[2][1]
+                        for x in ir.walk(src):
+                            if x[0] == 'param' and len(x) > 2 and x[2] in raw and ir.top_nocast(src) != x:
+                                nsites += 1
+                                if not (x[2] in casts and g.must_pass(n['id'], [y['id'] for y in casts[x[2]]])):
+                                    bad.append((fn, n, 'byte copy out of the caller\'s %s without the type check' % ('key' if raw[x[2]] == 'ktype' else 'value')))
+        key = '%s.Get.set' % T
+        if bad:
+            f0, n0, why = bad[0]
+            ctx.refuted(rule, key, site(f0, n0['line']), 'on the way from %s a key/value reaches storage unchecked: %s' % (entry, why), ['site: %s' % P.cfg(f0).describe(n0)])
+        else:
+            ctx.proved(rule, key, site(P.fn(entry)), 'every store of the caller\'s key or value (%d sites, through %d functions) is dominated by cast to the container\'s key/value type' % (nsites, len(seen)))
+    ctx.floor(rule, 2)
+
+
 def run(ctx, load):
     P = load(UNITS, 'default')
     ctx.stats['units'] = set(UNITS)
@@ -462,6 +528,7 @@ def run(ctx, load):
     check_nopre(P, ctx)
     check_documented(P, ctx)
     check_dispatcher(P, ctx)
+    check_typed_kv(P, ctx)
 
 
 EXPLANATION = (
